@@ -393,6 +393,13 @@ func (d *Dev) CanonRules() string {
 	for _, t := range ts {
 		fmt.Fprintf(&b, "*%s\n", t.Name)
 		cs := append([]*Chain(nil), t.Chains...)
+		// a built-in chain that the file does not name exists all the same:
+		// policy ACCEPT, no rules
+		for _, n := range BuiltinChains[t.Name] {
+			if t.chain(n) == nil {
+				cs = append(cs, &Chain{Name: n, Policy: "ACCEPT"})
+			}
+		}
 		sort.Slice(cs, func(i, j int) bool { return cs[i].Name < cs[j].Name })
 		for _, c := range cs {
 			fmt.Fprintf(&b, ":%s %s\n", c.Name, c.Policy)
@@ -552,6 +559,14 @@ func KernelRule(rule string) string {
 	return strings.Join(out, " ")
 }
 
+// BuiltinChains: the chains the kernel keeps for each table.
+var BuiltinChains = map[string][]string{
+	"filter": {"INPUT", "FORWARD", "OUTPUT"},
+	"mangle": {"PREROUTING", "INPUT", "FORWARD", "OUTPUT", "POSTROUTING"},
+	"nat":    {"PREROUTING", "INPUT", "OUTPUT", "POSTROUTING"},
+	"raw":    {"PREROUTING", "OUTPUT"},
+}
+
 // PrintRules prints the ruleset; kernel=true uses iptables-save spelling
 // (with packet counters on chain lines), else the loaded spelling.
 func (d *Dev) PrintRules(kernel bool) string {
@@ -561,6 +576,15 @@ func (d *Dev) PrintRules(kernel bool) string {
 			b.WriteString("# Generated by iptables-save v1.8.9\n")
 		}
 		fmt.Fprintf(&b, "*%s\n", t.Name)
+		if kernel {
+			// iptables-save lists every built-in chain of a table, also the
+			// ones the loaded file did not mention
+			for _, n := range BuiltinChains[t.Name] {
+				if t.chain(n) == nil {
+					fmt.Fprintf(&b, ":%s ACCEPT [0:0]\n", n)
+				}
+			}
+		}
 		for _, c := range t.Chains {
 			if kernel {
 				fmt.Fprintf(&b, ":%s %s [0:0]\n", c.Name, c.Policy)
